@@ -136,7 +136,7 @@ pub open spec fn policy_failure(p: TrampolineRoutingPolicy) -> Seq<u8> {
 //@ ensures#declared_total_below_fee_rejects_the_set [C12,C07]
       !fee_spec(self.params.routing_policy, declared_total(*req, forward_msat), trampoline.amount_msat) ==>
           (final(payment_state).is_fail_requested && final(g).ready_q == old(g).ready_q)
-//@ ensures#conflicting_info_rejects_the_set [C07]
+//@ ensures#conflicting_info_rejects_the_set [C07,C10,C03]
       trampoline != old(payment_state).trampoline ==>
           (final(payment_state).is_fail_requested && final(g).ready_q == old(g).ready_q)
 //@ ensures#first_rejection_carries_the_configured_policy [C12]
